@@ -195,6 +195,32 @@ CLAIMED['C17'] = (
     'NaN entries only where the transform supports them; constant RDMs excluded for minmax/geodesic; quantiles of the geo-topological '
     'transform are taken over the whole stack as the code does (the weaker reading).', '4/C17 and notes/C17.md')
 
+CLAIMED['C07'] = (
+    'TLA+ protocol model NoiseCeiling.tla (EXTENDS CvSets): Pool as normalise-then-NaN-mean with exact statistics, '
+    'PoolAll / LeaveOut / PoolTrain / Score carrying dependency sets, and an adversary move (candidate RDM from an integer grid, '
+    'every weak ordering for rho-a, rescalings / affine maps); TLC enumerates (data stack, candidate) pairs; replay with the '
+    'implementation scoring both sides; recorded calls validated by Trace_NoiseCeiling.tla',
+    'TLC checks NcNoLeak (the prediction for a group never depends on that group), NcDepsExact (cross-validation: training RDMs at '
+    'the test conditions; upper bound: all RDMs at the test conditions), RhoAOptimal and the invariance under per-RDM rescaling / '
+    'affine maps exactly, and enumerates every grid candidate for stacks of 2-3 RDMs incl. common missing-entry masks and groupings; '
+    'for cosine and correlation "no candidate beats the upper bound" and "lower <= upper" are decided by the implementation\'s compare '
+    'on every enumerated pair plus data RDMs, eps-perturbations and random candidates; what pool_rdm / compare actually received is '
+    'checked by token inspection and perturbation replay.',
+    'Irrational inequalities are evaluated in floating point (1e-9); stacks whose normalised rows cancel exactly are excluded from '
+    'value oracles; bounded grids.', '4/C07 and notes/C07.md')
+CLAIMED['C08'] = (
+    'TLA+ model Fitting.tla (EXTENDS RdmsStore): exact linear Predict with additivity / homogeneity theorems, Restrict = '
+    'subsample semantics with multiplicity, dependency sets, and an adversary over integer weight grids, candidate indices and '
+    'segment mixtures; exact optimal directions (adj(G) b) for one training RDM; replay with the implementation scoring fit and '
+    'competitors; recorded fits validated by Trace_Fitting.tla',
+    'TLC enumerates basis sets (2-3 RDMs over 3-4 conditions, full-rank catalogue), training stacks, pattern_idx selections with and '
+    'without repeats and every grid competitor, decides optimality exactly for K = 2 and emits the rest; every fitted parameter '
+    'vector must score at least as high as every competitor (grid, local perturbations, random) under the implementation\'s compare, '
+    'satisfy its constraints (theta >= 0, unit norm), depend only on the selected conditions (token inspection + perturbation '
+    'replay), and predict / predict_rdm / model_from_dict must agree exactly on the integer grid.',
+    'Tolerances 1e-7 closed forms, 1e-5 whitened (scipy cg), 1e-4 interpolation, 1e-3 BFGS on a fixed sample; three open known '
+    'findings.', '4/C08 and notes/C08.md')
+
 NOT_YET = {
 }
 
